@@ -234,3 +234,61 @@ def f25(run, v, entry, exc):
         return False
     return "ORDER BY term does not match any column in the result set" in v.get("exc_msg", "") and \
         _compound_sort_by_expression(entry.rel)
+
+
+@recogniser("F13")
+def f13(run, v, entry, exc):
+    """Select.skip_to is a Calculation that the Select's own projection elided from the target chain."""
+    if v["kind"] != "select_incoherent" or entry is None:
+        return False
+    from lsst.daf.relation import Calculation, UnaryOperationRelation
+    from lsst.daf.relation.sql import Select
+    from .oracles import all_nodes
+
+    if "does not reach skip_to" not in v["detail"].get("problem", ""):
+        return False
+    for n in all_nodes(entry.rel):
+        if isinstance(n, Select) and n.has_projection:
+            st = n.skip_to
+            if isinstance(st, UnaryOperationRelation) and isinstance(st.operation, Calculation) \
+                    and st.operation.tag not in n.projection.columns and str(n)[:200] == v["detail"].get("select"):
+                return True
+    return False
+
+
+def _sort_missing_cols_not_chain(rel):
+    from lsst.daf.relation import BinaryOperationRelation, Chain, Sort, UnaryOperationRelation
+    from .oracles import all_nodes
+
+    for n in all_nodes(rel):
+        if isinstance(n, UnaryOperationRelation) and isinstance(n.operation, Sort):
+            t = n.target
+            if isinstance(t, BinaryOperationRelation) and isinstance(t.operation, Chain):
+                continue
+            if not set(n.operation.columns_required) <= set(t.columns):
+                return True
+    return False
+
+
+def _proj_after_dedup_after_sortdrop(entry):
+    """History pattern of F7: sort, then a projection dropping a sort column, a deduplication, another projection."""
+    h = entry.mv.hist
+
+    def chainops(h):
+        out = []
+        while isinstance(h, tuple) and h and h[0] in ("proj", "dedup", "sort", "slice", "calc", "sel"):
+            out.append(h[0])
+            h = h[1]
+        return out
+
+    ops = chainops(h)
+    return "dedup" in ops and "sort" in ops and ops.count("proj") >= 1
+
+
+@recogniser("F7")
+def f7(run, v, entry, exc):
+    """sort -> projection dropping the sort column -> deduplication -> projection: the outer Select keeps a sort
+    on a column its subquery no longer provides (KeyError at compile)."""
+    if entry is None or v["kind"] not in CONTENT_KINDS:
+        return False
+    return _sort_missing_cols_not_chain(entry.rel)
